@@ -58,10 +58,12 @@ let split2 c s =
 let digit s i = nat_of_int (Char.code s.[i] - 48)
 
 (* the 49 sends and 7 pre-checks of a T / V operation, run-length encoded like the harness *)
+let raw = Buffer.create 64
 let table send disc =
   let b = Buffer.create 64 in
   Buffer.add_string b "t:";
   let last = ref "" and n = ref 0 in
+  let delivered = Array.make 7 false in
   let flush () =
     if !n > 0 then begin
       Buffer.add_string b !last;
@@ -71,13 +73,17 @@ let table send disc =
   for l = 0 to 6 do
     for c = 0 to 6 do
       let s = deliveries (send (nat_of_int l, nat_of_int c)) in
+      if s <> "-" && not (String.length s > 1 && s.[1] = ':') then delivered.(l) <- true;
       if s = !last then incr n else begin flush (); last := s; n := 1 end
     done
   done;
   flush ();
   Buffer.add_string b "q:";
+  Buffer.add_string raw " q=";
   for l = 0 to 6 do
-    Buffer.add_string b (match discard (disc (nat_of_int l)) with "d1" -> "1" | "d0" -> "0" | _ -> "E")
+    let d = discard (disc (nat_of_int l)) in
+    Buffer.add_string raw (match d with "d1" -> "1" | "d0" -> "0" | _ -> "E");
+    Buffer.add_string b (match d with "d1" -> if delivered.(l) then "X" else "." | "d0" -> "." | _ -> "E")
   done;
   Buffer.contents b
 
@@ -85,6 +91,7 @@ let policy_of = function "i" -> PIgnore | "e" -> PException | _ -> PReplace
 
 let run_case ops =
   let w = ref (set_policy PIgnore init_world) in
+  Buffer.clear raw;
   let out = ref [] in
   List.iter (fun o ->
     if o <> "" then begin
@@ -137,6 +144,8 @@ let run_case ops =
             let name = cstring a in
             table (fun m -> log_name !w.logs name m) (fun l -> discard_name !w.logs name l)
         | _ -> "?" in
+      let r = if r = "d0" || r = "d1" then begin
+          Buffer.add_string raw (" q=" ^ String.sub r 1 1); "q" end else r in
       out := r :: !out
     end) ops;
   let intl =
@@ -149,7 +158,7 @@ let run_case ops =
               | Some (FMax _) -> "max" | Some (FMin _) -> "min" | Some (FLevel _) -> "level"
               | _ -> "other") in
         " " ^ ostring ld.lname ^ "=" ^ t) !w.logs) in
-  String.concat " " (List.rev !out) ^ " ## " ^ intl
+  String.concat " " (List.rev !out) ^ " ## " ^ intl ^ Buffer.contents raw
 
 let () =
   let ic = if Array.length Sys.argv > 1 then open_in Sys.argv.(1) else stdin in
